@@ -649,7 +649,7 @@ func c06CloseUnderLoad(run *evid.Run, cfg Cfg) {
 	if bin == "" {
 		bin = "/verif/.bin/vh"
 	}
-	for round := 0; round < cfg.N(3, 20); round++ {
+	for round := 0; round < cfg.N(6, 40); round++ {
 		dir := filepath.Join(cfg.Work, fmt.Sprintf("closeload-%d", round))
 		db, lg := dir+"-db", dir+"-events.log"
 		_ = os.RemoveAll(db)
@@ -673,6 +673,15 @@ func c06CloseUnderLoad(run *evid.Run, cfg Cfg) {
 	if run.Get("closeload_responses") == 0 || run.Get("closeload_verify_events_checked") == 0 {
 		run.Inconclusive("close-under-load child reported no responses or nothing was verified after reopening")
 	}
+	// One request exactly between its read and its write when the store starts closing.
+	cr := runChild(cfg, bin, "C06closerace", filepath.Join(cfg.Work, "closerace"), 5*time.Minute, nil)
+	absorbChild(run, cr, "", "store closing under an in-flight request: ")
+	if cr.Err != nil && !strings.Contains(cr.Out, "CHILD-VIOLATION") {
+		run.Count("closerace_child_deaths_tolerated", 1)
+	}
+	if run.Get("close_race_rounds") == 0 {
+		run.Inconclusive("close-race child completed no round: " + tail(cr.Out, 400))
+	}
 	// OS-level write failure on the value log.
 	io := runChild(cfg, bin, "C06iochild", filepath.Join(cfg.Work, "iofault"), 2*time.Minute, nil)
 	absorbChild(run, io, "", "value log unwritable: ")
@@ -695,7 +704,11 @@ func c06CloseChild(cfg Cfg) int {
 		return 3
 	}
 	env.Stack = st
-	env.FreshKeys(3)
+	// 16 keys (the first three are the ones the verifying incarnation also probes with conflicting twins): each
+	// worker mostly works on its own key, so that many requests are between their read and their write when the
+	// store closes; the single-key write path (single attestations, proposals) and the batch path are both in use.
+	const nk = 16
+	env.FreshKeys(nk)
 	lf, err := os.OpenFile(cfg.Args[2], os.O_WRONLY|os.O_APPEND|os.O_CREATE, 0o644)
 	if err != nil {
 		fmt.Println("cannot open event log:", err)
@@ -714,18 +727,43 @@ func c06CloseChild(cfg Cfg) int {
 			r := rand.New(rand.NewSource(cfg.Seed*31 + int64(c)))
 			for i := 0; i < 400; i++ {
 				e := epoch.Add(2)
-				n := 1 + r.Intn(3)
-				perm := r.Perm(3)[:n]
-				cs := make([]*AttCase, n)
-				for j, k := range perm {
-					cs[j] = mkAtt(env.Keys[k], env.Names[k], 0, 1, byte(c))
-					cs[j].Data.Source.Epoch, cs[j].Data.Target.Epoch = e, e+1
-				}
 				isClosed := false
 				select {
 				case <-closed:
 					isClosed = true
 				default:
+				}
+				if r.Intn(4) == 0 {
+					p := mkProp(env.Keys[c%nk], env.Names[c%nk], 0, byte(c))
+					p.Data.Slot = e
+					v, sg := env.SignProp(ViaService, p)
+					if (len(sg) > 0) != (v == core.ResultSucceeded) {
+						fmt.Printf("CHILD-VIOLATION state %s with signature length %d while the store was being closed\n", v, len(sg))
+					}
+					if v == core.ResultSucceeded {
+						root := p.SigningRoot()
+						elog.write("REL %x prop 0 %d %x", p.Key.Pub, p.Data.Slot, root[:])
+						if isClosed {
+							fmt.Println("CHILD-VIOLATION proposal signed after the store had been closed")
+						}
+					}
+					mu.Lock()
+					responses++
+					if responses%10 == 0 {
+						fmt.Printf("STAT responses %d\n", 10)
+					}
+					mu.Unlock()
+					continue
+				}
+				n := 1 + r.Intn(3)
+				if r.Intn(2) == 0 {
+					n = 1
+				}
+				perm := []int{c % nk, (c + 1) % nk, (c + 5) % nk}[:n]
+				cs := make([]*AttCase, n)
+				for j, k := range perm {
+					cs[j] = mkAtt(env.Keys[k], env.Names[k], 0, 1, byte(c))
+					cs[j].Data.Source.Epoch, cs[j].Data.Target.Epoch = e, e+1
 				}
 				var vs []core.Result
 				var ss [][]byte
@@ -1025,4 +1063,144 @@ func c06Malformed(run *evid.Run, e *c06Env) {
 		d.AccountName = ""
 		return rl.RunRules(bg, creds, ruler.ActionSignBeaconAttestation, []*ruler.RulesData{rd(0, att(0)), rd(1, att(1)), d})
 	}, []int{2})
+}
+
+func init() { Children["C06closerace"] = c06CloseRace }
+
+// c06CloseRace places ONE request exactly between its read and its write (parked at the storage hook) when the
+// store starts closing - what a graceful shutdown does to an in-flight request - and lets it go on while the close
+// is running.  Whatever the request then returns, a signature may only leave if the reopened store covers it, and a
+// conflicting twin must be refused afterwards.
+func c06CloseRace(cfg Cfg) int {
+	run := evid.New("C06closerace", cfg.Tier, cfg.Seed, "fault_enumeration")
+	rounds := cfg.N(10, 60)
+	for round := 0; round < rounds; round++ {
+		env, err := NewEnv(run, cfg, fmt.Sprintf("c06-closerace-%d", round), rig.StackOpts{})
+		if err != nil {
+			fmt.Println("CHILD-INCONCLUSIVE", err)
+			return 3
+		}
+		env.FreshKeys(3)
+		// History of many other validators (an operator's instance holds tens of thousands), so that closing has a
+		// memtable to flush and takes a realistic time; written through the real batch rule.
+		if round%2 == 0 {
+			const per = 4000
+			for b := 0; b < 10; b++ {
+				pubs := make([][]byte, per)
+				srcs, tgts := make([]uint64, per), make([]uint64, per)
+				for i := range pubs {
+					pubs[i] = rig.OpaqueKey(fmt.Sprintf("closerace-%d-%d-%d", round, b, i), 0x90).Pub
+					srcs[i], tgts[i] = 3, 4
+				}
+				ruleAtts(env.Stack.Rules, pubs, srcs, tgts)
+			}
+		}
+		for i := 0; i < 40+20*(round%4); i++ {
+			a := mkAtt(env.Keys[1+i%2], env.Names[1+i%2], 0, 1, 0x11)
+			a.Data.Source.Epoch, a.Data.Target.Epoch = uint64(i+1), uint64(i+2)
+			env.SignAtt(ViaService, a)
+		}
+		kind := []string{"prop", "att"}[round%2]
+		target := env.Keys[0].Pub
+		parked, release := make(chan struct{}), make(chan struct{})
+		var once sync.Once
+		verifhook.Set(func(name string, keys [][]byte) error {
+			if name == "store.Store.pre" && len(keys) > 0 && len(keys[0]) >= 48 && string(keys[0][:48]) == string(target) {
+				first := false
+				once.Do(func() { first = true })
+				if first {
+					close(parked)
+					<-release
+				}
+			}
+			return nil
+		})
+		type out struct {
+			res core.Result
+			sig []byte
+		}
+		done := make(chan out, 1)
+		var prop *PropCase
+		var att *AttCase
+		go func() {
+			if kind == "prop" {
+				prop = mkProp(env.Keys[0], env.Names[0], 0, 0xaa)
+				prop.Data.Slot = 500
+				r, s := env.SignProp(ViaService, prop)
+				done <- out{r, s}
+			} else {
+				att = mkAtt(env.Keys[0], env.Names[0], 0, 1, 0xaa)
+				att.Data.Source.Epoch, att.Data.Target.Epoch = 500, 501
+				r, s := env.SignAtt(ViaService, att)
+				done <- out{r, s}
+			}
+		}()
+		select {
+		case <-parked:
+		case o := <-done:
+			// Never reached the write (refused earlier): nothing to learn.
+			_ = o
+			verifhook.Set(nil)
+			env.Stack.Close()
+			continue
+		case <-time.After(20 * time.Second):
+			fmt.Println("CHILD-INCONCLUSIVE request never reached its write")
+			return 3
+		}
+		closeDone := make(chan struct{})
+		go func() { _ = env.Stack.CloseRules(); close(closeDone) }()
+		// Let the close get going (the delay varies from round to round), then let the request go on.
+		time.Sleep(time.Duration(100+150*(round%7)) * time.Microsecond)
+		close(release)
+		var o out
+		select {
+		case o = <-done:
+		case <-time.After(30 * time.Second):
+			fmt.Println("CHILD-INCONCLUSIVE request parked at the write did not return after the store closed")
+			return 3
+		}
+		<-closeDone
+		verifhook.Set(nil)
+		fmt.Printf("STAT close_race_rounds 1\n")
+		fmt.Printf("DISTINCT %s released between read and write while the store closes -> %s signature=%v\n", kind, o.res, len(o.sig) > 0)
+		if (len(o.sig) > 0) != (o.res == core.ResultSucceeded) {
+			fmt.Printf("CHILD-VIOLATION state %s with signature length %d for a request caught by the closing store\n", o.res, len(o.sig))
+		}
+		if len(o.sig) > 0 {
+			fmt.Printf("STAT close_race_signed 1\n")
+			if err := env.Stack.Restart(); err != nil {
+				fmt.Println("CHILD-INCONCLUSIVE cannot reopen:", err)
+				return 3
+			}
+			st, err := env.Stack.ReadState(target)
+			if err != nil {
+				fmt.Println("CHILD-INCONCLUSIVE cannot read state:", err)
+				return 3
+			}
+			if kind == "prop" && (!st.HasProp || st.Slot < 500) {
+				fmt.Printf("CHILD-VIOLATION a proposal at slot 500 was signed while the store was closing, and after reopening the store holds %+v: the approval was never recorded\n", st)
+			}
+			if kind == "att" && (!st.HasAtt || st.Tgt < 501) {
+				fmt.Printf("CHILD-VIOLATION an attestation 500->501 was signed while the store was closing, and after reopening the store holds %+v: the approval was never recorded\n", st)
+			}
+			// The conflicting twin.
+			if kind == "prop" {
+				tw := mkProp(env.Keys[0], env.Names[0], 0, 0xbb)
+				tw.Data.Slot = 500
+				if r, s := env.SignProp(ViaService, tw); r == core.ResultSucceeded || len(s) > 0 {
+					fmt.Println("CHILD-VIOLATION after reopening, a second, different proposal at slot 500 was signed")
+				}
+			} else {
+				tw := mkAtt(env.Keys[0], env.Names[0], 0, 1, 0xbb)
+				tw.Data.Source.Epoch, tw.Data.Target.Epoch = 500, 501
+				if r, s := env.SignAtt(ViaService, tw); r == core.ResultSucceeded || len(s) > 0 {
+					fmt.Println("CHILD-VIOLATION after reopening, a second, different attestation with target 501 was signed")
+				}
+			}
+		} else {
+			fmt.Printf("STAT close_race_refused 1\n")
+		}
+		env.Stack.Close()
+	}
+	return 0
 }
